@@ -88,3 +88,28 @@ Example C13_alias_witness :
   option_map fst (requests [(([104], t), t); (([120], t), t); (([104], t), t)] (start [[99]])) =
   Some [t; 95 :: t; t].
 Proof. vm_compute. reflexivity. Qed.
+
+(* which calls are taken for directives (compileFile's walk; RecogniseModel): with the repaired
+   walk (fix "dot-import") a file is either refused, one positioned diagnostic per directive
+   spelled through a dot-import of cff, or every directive call of it is replaced - an output is
+   written exactly when the file contains a directive and no directive call is left in it.
+   C13_dot_import_refuted keeps the repaired defect as a witness: before the fix a file whose
+   only directive was dot-imported got neither output nor diagnostic, and next to a qualified
+   directive the dot-imported one was left in the output (the probes DotImport and DotMixed
+   are these two files). *)
+From CffVerif Require Import RecogniseModel RecogniseProofs.
+
+Theorem C13_directives_processed_or_refused :
+  forall f, match run_fixed f with
+            | inr n => n = errors f /\ 0 < n
+            | inl None => forall i, In i f -> is_dir i = false
+            | inl (Some o) => left_in o = 0 /\ exists i, In i f /\ is_dir i = true
+            end.
+Proof. exact fixed_processes_or_refuses. Qed.
+Print Assumptions C13_directives_processed_or_refused.
+
+Theorem C13_dot_import_refuted :
+  run_old [Code 1; Dir Dotted [7]] = None /\
+  exists o, run_old [Dir Qualified [5]; Dir Dotted [7]] = Some o /\ left_in o = 1.
+Proof. exact old_refuted. Qed.
+Print Assumptions C13_dot_import_refuted.
